@@ -42,12 +42,12 @@ type Pending struct {
 type Storage struct {
 	Inner kvs.Storage
 
-	mu       sync.Mutex
-	byGoid   map[uint64]int
-	pending  map[int]*Pending
-	open     bool // pass everything through (teardown)
+	mu        sync.Mutex
+	byGoid    map[uint64]int
+	pending   map[int]*Pending
+	open      bool // pass everything through (teardown)
 	HonourCtx bool // refuse every call whose context is already done, as a networked backend does
-	Released int  // number of gated calls released so far
+	Released  int  // number of gated calls released so far
 	// Observe, if set, is called with the result of every forwarded call of a registered worker.
 	Observe func(worker int, op, key string, err error)
 }
